@@ -27,7 +27,7 @@ def setup():
         if hasattr(mod, "translate"):
             try:
                 mod.translate()
-            except common.TranslateError as e:
+            except Exception as e:  # reported again, fail-closed, by the check itself
                 print(f"[setup] {pid}: translation refused: {e}")
     ok, log = common.coq_make(["all"], timeout=3000, jobs=16)
     print(log[-3000:])
